@@ -247,6 +247,8 @@ Post(t, children) ==
   LET pt == Tab(t) IN
   /\ viol' = viol
        \cup V(children = "none", "C07_no_child_left_behind")
+       \* C12: a launch that failed after the fork still started a child; it must have been reaped when create() returns
+       \cup V(~res.ok /\ forked => children = "none", "C12_child_of_failed_launch_reaped")
        \cup V({<<x[1], x[2], x[3]>> : x \in View(pt)} = {<<x[1], x[2], x[3]>> : x \in View(base)}, "C07_no_descriptor_left_open")
        \cup V(\A i \in 0..2 : i \in DOMAIN base => (i \in DOMAIN pt /\ pt[i].ino = base[i].ino /\ pt[i].acc = base[i].acc),
               "C05_parent_std_untouched")
